@@ -211,6 +211,13 @@ def run : Runner
         (parseCoin next (String.ofList r)).map fun c =>
           let s := s.push c
           (s, next + 1, toks ++ [s!"./{s.coins.length}/{s.totalValue}/{s.totalValueAge}/{idsTok s.coins "."}"])
+      | 'r' :: k =>
+        -- the k-th coin object of this history pushed AGAIN (the same pointer): a coin set is a list, it may hold
+        -- one coin several times
+        let pushed := ops.filterMap fun op => match op.toList with | 'u' :: r => some (String.ofList r) | _ => none
+        ((String.ofList k).toNat?.bind fun k => (pushed[k]?).bind (parseCoin k)).map fun c =>
+          let s := s.push c
+          (s, next, toks ++ [s!"./{s.coins.length}/{s.totalValue}/{s.totalValueAge}/{idsTok s.coins "."}"])
       | ['o'] =>
         let (s, c) := s.pop
         some (s, next, toks ++ [s!"{match c with | some c => toString c.id | none => "nil"}/{s.coins.length}/{s.totalValue}/{s.totalValueAge}/{idsTok s.coins "."}"])
